@@ -84,6 +84,9 @@ def quantile_sample(family, n):
         return stats.t(6).ppf(q)
     if family == "gamma3":
         return stats.gamma(3).ppf(q)
+    if family == "gamma3-left":
+        # mirror image of gamma(3): left-skewed
+        return -stats.gamma(3).ppf(q)[::-1]
     if family == "logistic":
         return stats.logistic.ppf(q)
     if family == "gamma9":
